@@ -33,85 +33,45 @@ def nsym():
     return 3 if chx.thorough() else 2
 
 
+# The two bound predicates below are written with `&` and `|` instead of `and` / `or` / `if`: on symbolic
+# operands these build ONE solver formula without forking, so that the whole precondition costs a single
+# decision and every later fork (the table decoding in the body) is pruned by z3 against it. With
+# `and`/`or` every conjunct forks and CrossHair spends 3-10x as many paths on rejected prefixes (measured).
+# On concrete ints (native replay, census) they are ordinary bool arithmetic.
+
 def word_ok(w, wlen, n):
-    """Precondition: length in range, used positions index the alphabet, unused positions are zero; the
-    unknown symbol z (index 2) only as the last symbol (the parser stops at it in any case)."""
-    if not 0 <= wlen <= len(w):
-        return False
+    """Bound of the word: length in range, used positions index the alphabet, unused positions are
+    zero; the unknown symbol z (index 2) only as the last symbol (the parser stops at it anyway)."""
+    r = (0 <= wlen) & (wlen <= len(w))
     for i in range(len(w)):
-        if not 0 <= w[i] < n:
-            return False
-    for i in range(len(w)):
-        if i >= wlen:
-            if w[i] != 0:
-                return False
-        elif i < wlen - 1:
-            if w[i] > 1:
-                return False
-    return True
+        r = r & (0 <= w[i]) & (w[i] < n) & ((i < wlen) | (w[i] == 0)) & ((i >= wlen - 1) | (w[i] < 2))
+    return r
+
+
+def _lex_less(x, y):
+    res = False
+    for i in range(len(x) - 1, -1, -1):
+        res = (x[i] < y[i]) | ((x[i] == y[i]) & res)
+    return res
 
 
 def family(t, p, v, nt, b):
-    """Precondition, the same predicate as `1 <= p and t[0] == 0 and enc.cfg_canonical(t, p, v, nt, b)`
-    (compared on all tuples of the family and on random ones by the native census), written so that
-    CrossHair wastes few paths: ranges and the zero padding of unused slots first (failing branches
-    hang off the root once), then every int is decoded to a concrete value (one table look-up each)
-    and a prefix that cannot become canonical any more is abandoned at once. The fork-per-conjunct form
-    keeps evaluating after the first false conjunct and costs 3-10x more paths."""
+    """Bound of the grammar: the same predicate as `1 <= p <= maxp and t[0] == 0 and
+    enc.cfg_canonical(t, p, v, nt, b)` (the first production has head S; compared with that form on
+    random and on all family tuples by the native census), in the fork-free style explained above."""
     stride = enc.cfg_stride(b)
     maxp = len(t) // stride
-    pc = enc.pick(p, maxp + 1)
-    if pc < 1:
-        return False
+    r = (1 <= p) & (p <= maxp) & (t[0] == 0)
     for i in range(maxp):
         base = i * stride
-        if i >= pc:
-            for j in range(stride):
-                if t[base + j] != 0:
-                    return False
-        else:
-            if not 0 <= t[base] < v:
-                return False
-            if not 0 <= t[base + 1] <= b:
-                return False
-            for j in range(b):
-                if not 0 <= t[base + 2 + j] < v + nt:
-                    return False
-    if t[0] != 0:
-        return False
-    prev = None
-    for i in range(pc):
-        base = i * stride
-        cur = [enc.pick(t[base], v)]
-        # state of the lexicographic comparison with the previous production: -1 smaller (dead),
-        # 0 equal so far, 1 already greater
-        cmp = 1 if prev is None else _cmp(prev[0], cur[0])
-        if cmp < 0:
-            return False
-        ln = enc.pick(t[base + 1], b + 1)
-        cur.append(ln)
-        if cmp == 0:
-            cmp = _cmp(prev[1], ln)
-            if cmp < 0:
-                return False
-        for j in range(ln, b):
-            if t[base + 2 + j] != 0:
-                return False
+        r = r & (0 <= t[base]) & (t[base] < v) & (0 <= t[base + 1]) & (t[base + 1] <= b)
         for j in range(b):
-            c = enc.pick(t[base + 2 + j], v + nt) if j < ln else 0
-            cur.append(c)
-            if cmp == 0:
-                cmp = _cmp(prev[2 + j], c)
-                if cmp < 0:
-                    return False
-        if cmp == 0:
-            return False
-        prev = cur
-    return True
-
-
-def _cmp(x, y):
-    return -1 if y < x else (0 if x == y else 1)
+            x = t[base + 2 + j]
+            r = r & (0 <= x) & (x < v + nt) & ((j < t[base + 1]) | (x == 0))
+        r = r & ((i < p) | ((t[base] == 0) & (t[base + 1] == 0)))
+        if i + 1 < maxp:
+            r = r & ((i + 1 >= p) | _lex_less(t[base:base + stride], t[base + stride:base + 2 * stride]))
+    return r
 
 
 def _valid(prods, v):
@@ -326,6 +286,10 @@ V3_CHAIN = dict(p=4, l0=2, a0=1, h1=1, l1=1, h2=2, l2=0, h3=2)   # S -> A ?,  A 
 B3_SEQ = dict(p=3, l0=3, h1=1, l1=0, h2=1, l2=1)                  # S -> ? ? ?,  A -> eps | ?
 
 
+# word classes used to split heavy parse shards (pins are equalities)
+WSPLIT = [dict(wlen=0), dict(wlen=1), dict(wlen=2), dict(wlen=3, w0=0), dict(wlen=3, w0=1)]
+
+
 def _shards_sets(tier):
     sh = [dict(p=1, mode=0)] + _pins(dict(p=2, mode=0), l0=[0, 1, 2])
     if tier == "quick":
@@ -342,9 +306,9 @@ def _shards_sets(tier):
 
 def _shards_sets_v3(tier):
     if tier == "quick":
-        return [dict(V3_CONFLICT, mode=0, l1=1)] + _pins(dict(V3_CONFLICT, mode=0, l1=2), a1=[0, 1, 2, 3, 4]) \
-            + [dict(V3_CHAIN, mode=0, l3=1)]
-    return _pins(dict(V3_CONFLICT), mode=[0, 6], l1=[1, 2]) + _pins(dict(V3_CHAIN), mode=[0, 6], l3=[1, 2])
+        return [dict(V3_CONFLICT, mode=0, l1=1), dict(V3_CONFLICT, mode=0, l1=2, a1=3), dict(V3_CHAIN, mode=0, l3=1)]
+    return _pins(dict(V3_CONFLICT, l1=1), mode=[0, 6]) + _pins(dict(V3_CONFLICT, l1=2), mode=[0, 6], a1=[0, 1, 2, 3, 4]) \
+        + _pins(dict(V3_CHAIN), mode=[0, 6], l3=[1, 2])
 
 
 def _shards_sets_b3(tier):
@@ -354,22 +318,26 @@ def _shards_sets_b3(tier):
 
 
 def _shards_parse(tier):
-    sh = [dict(p=1, mode=0)] + _pins(dict(p=2, mode=0), l0=[0, 1]) + _pins(dict(p=2, mode=0, l0=2), a0=[0, 1, 2, 3])
+    sh = [dict(p=1, mode=0)] + _pins(dict(p=2, mode=0), l0=[0, 1])
     if tier == "quick":
+        sh += _pins(dict(p=2, mode=0, l0=2), a0=[1, 2, 3])      # a0=0 (S -> S ? first): nothing is LL(1)
         sh += _pins(dict(p=3, mode=0, l0=1, a0=1, h1=0, l1=1), a1=[2, 3])
-        sh += _pins(dict(p=3, mode=0, l0=1, a0=1, h1=0, l1=2), a1=[0, 1, 2, 3])
+        sh += _pins(dict(p=3, mode=0, l0=1, a0=1, h1=0, l1=2), a1=[1, 2])
         sh += _pins(dict(p=3, mode=0, l0=1, a0=1, h1=1), l1=[0, 1, 2])
         return sh
-    sh += _pins(dict(p=3, mode=0, l0=0), h1=[0, 1])
-    sh += _pins(dict(p=3, mode=0, l0=1), a0=[0, 1, 2, 3], h1=[0, 1])
-    sh += _pins(dict(p=3, mode=0, l0=2), a0=[0, 1, 2, 3], h1=[0, 1])
+    sh += _pins(dict(p=2, mode=0, l0=2), a0=[0, 1, 2, 3])
+    for g in _pins(dict(p=3, mode=0, l0=0), h1=[0, 1]) + _pins(dict(p=3, mode=0, l0=1), a0=[0, 1, 2, 3], h1=[0, 1]) \
+            + _pins(dict(p=3, mode=0, l0=2), a0=[0, 1, 2, 3], h1=[0, 1]):
+        heavy = (g["l0"] == 2 and g["a0"] != 0) or (g["l0"] == 0 and g["h1"] == 0) or \
+            (g["l0"] == 1 and g["a0"] == 1 and g["h1"] == 0)
+        sh += [dict(g, **ws) for ws in WSPLIT] if heavy else [g]
     return sh
 
 
 def _shards_parse_v3(tier):
     if tier == "quick":
         return [dict(V3_CHAIN, mode=0, l3=1)]
-    return _pins(dict(V3_CHAIN, mode=0), l3=[1, 2])
+    return [dict(V3_CHAIN, mode=0, l3=1)] + [dict(V3_CHAIN, mode=0, l3=2, **ws) for ws in WSPLIT]
 
 
 def _shards_parse_b3(tier):
